@@ -1,4 +1,5 @@
 import Driver.Codec
+import Driver.Sched
 /-
   Line protocol: one JSON request per line on stdin, one JSON reply per line on stdout.
 -/
@@ -41,6 +42,8 @@ def handle (line : String) : Json :=
       let r : Except String Json :=
         match fam with
         | "pipe" => handlePipe j
+        | "stp" => LazyDs.SchedDriver.handleStp j
+        | "lpm" => LazyDs.SchedDriver.handleLpm j
         | _ => .error s!"unknown family {fam}"
       match r with
       | .ok v => v
